@@ -430,5 +430,5 @@ def _with_golean(cfg):
     cfg["trusted_base"] = cfg["trusted_base"] + GOLEAN_TB
 
 
-for _p in ("C01", "C02", "C03", "C04", "C05", "C06", "C07", "C10", "C11", "C12", "C14", "C17", "C18", "C20"):
+for _p in ("C01", "C02", "C03", "C04", "C05", "C06", "C07", "C10", "C11", "C12", "C14", "C15", "C17", "C18", "C20"):
     _with_golean(CHECKS[_p])
